@@ -29,7 +29,7 @@ func init() {
 			"exact decimal ties k/2^j, small integers and the 2^53 / 2^63 / 2^64 / 1e21 boundaries is one case per (double, method): all digit-count arguments of the tier are applied to it; " +
 			"a case is non-trivial when the receiver is finite and non-zero and the model result is a digit string (not NaN/Infinity/RangeError). " +
 			"text->number: every string of length <= L over the 16-character near-miss alphabet, every string of the StrNumericLiteral grammar product over the stated digit strings, " +
-			"every single-character edit of the valid literals, white-space wrappings; one case per (string, entry point, radix); non-trivial when the model result is not NaN / not SyntaxError.",
+			"every single-character edit of the valid literals, white-space wrappings; every string is handed over in both internal representations (Go string, and UTF-16 backed as String.fromCharCode returns it, which also carries lone surrogates), white space = every ES5 WhiteSpace/LineTerminator code point plus near misses that must not be trimmed; one case per (string, representation, entry point, radix); non-trivial when the model result is not NaN / not SyntaxError.",
 		Families: []engine.Family{
 			{Name: "tostring", Run: runToString},
 			{Name: "radix", Run: runRadix},
